@@ -10,6 +10,9 @@ Vocabulary (all executable definitions; the lane `enc` runs exactly these):
 -/
 import LolHtml.Lemmas.EncFeed
 import LolHtml.Lemmas.EncUtf8
+import LolHtml.Lemmas.EncEncoder
+import LolHtml.Lemmas.EncResync
+import LolHtml.Lemmas.EncMeta
 
 namespace LolHtml.Enc
 
@@ -107,5 +110,110 @@ theorem C13_fastpath_call (e : Encoding) (EL : e.Lawful) (pol : Policy e.codec) 
 /-- the fast path is really taken in the example (one chunk for the ASCII prefix, no decoder call) -/
 example : (feedTextWith true windows1252 (Policy.greedy _) 1024 (TD.new _) 0 [0x61, 0x62] true).map (·.2)
     = some [⟨[Char.ofNat 0x61, Char.ofNat 0x62], true, 0, 2⟩] := by decide +kernel
+
+/-! ## C13_encoder -/
+
+/-- **C13_encoder.** For every lawful codec, whatever the stack/heap buffer sizes (≥ 14 bytes: room for
+one NCR `&#1114111;` plus one 4-byte sequence), whichever buffer is in use on entry, and wherever the
+encoder chooses to report `OutputFull`: `TextEncoder::encode` terminates, drops nothing (none of its early
+`return`s loses content), never calls the output handler with an empty slice, and the concatenation of
+what it hands to the output handler is exactly `encodeAll` = each scalar value's bytes in the document
+encoding, or `&#N;` when it is unmappable — never bytes of another encoding. -/
+theorem C13_encoder (c : Codec) (L : c.Lawful) (pol : EncPolicy) (cfg : BufCfg) (hcfg : cfg.Ok)
+    (heap : Bool) (content : List Char) :
+    ∃ heap' calls, encode c pol cfg heap content = some ⟨heap', calls, []⟩ ∧
+      calls.flatten = encodeAll c content ∧ ∀ x ∈ calls, x ≠ [] :=
+  encodeLoop_ok L pol cfg hcfg (content.length + 1) heap content (by omega)
+
+/-- in particular the output does not depend on buffer sizes, buffer state or `OutputFull` policy -/
+theorem C13_encoder_independent (c : Codec) (L : c.Lawful) (pol pol' : EncPolicy) (cfg cfg' : BufCfg)
+    (hcfg : cfg.Ok) (hcfg' : cfg'.Ok) (heap heap' : Bool) (content : List Char) :
+    ∃ o o', encode c pol cfg heap content = some o ∧ encode c pol' cfg' heap' content = some o' ∧
+      o.calls.flatten = o'.calls.flatten := by
+  obtain ⟨h1, c1, e1, f1, _⟩ := C13_encoder c L pol cfg hcfg heap content
+  obtain ⟨h2, c2, e2, f2, _⟩ := C13_encoder c L pol' cfg' hcfg' heap' content
+  exact ⟨_, _, e1, e2, by simp [f1, f2]⟩
+
+/-- Non-vacuity: windows-1252, "é€Ж<" with the laziest encoder and a 14-byte buffer: `Ж` is unmappable
+and becomes `&#1046;`. -/
+example : ∃ heap' calls,
+    encode (singleByte windows1252Table) EncPolicy.lazy ⟨14, 14, 3⟩ false
+      [Char.ofNat 0xE9, Char.ofNat 0x20AC, Char.ofNat 0x416, Char.ofNat 0x3C] = some ⟨heap', calls, []⟩ ∧
+    calls.flatten = encodeAll (singleByte windows1252Table)
+      [Char.ofNat 0xE9, Char.ofNat 0x20AC, Char.ofNat 0x416, Char.ofNat 0x3C] ∧ ∀ x ∈ calls, x ≠ [] :=
+  C13_encoder _ (singleByte_lawful _) _ _ ⟨by decide, by decide⟩ _ _
+
+example : encodeAll (singleByte windows1252Table)
+    [Char.ofNat 0xE9, Char.ofNat 0x20AC, Char.ofNat 0x416, Char.ofNat 0x3C]
+    = [0xE9, 0x80, 38, 35, 49, 48, 52, 54, 59, 0x3C] := by decide +kernel
+
+/-! ## C13_resync -/
+
+/-- **C13_resync (safety part).** For every sequence of `write_utf8_chunk` calls (any bytes, any split,
+starting with any buffered state): the model never runs out of fuel, every fragment handed to `flush` is
+non-empty well-formed UTF-8, and the fragments tile a prefix of the bytes written so far — if all writes
+succeeded the only bytes not flushed are the ones still buffered; if a write failed nothing beyond a
+prefix of the input was emitted.  So malformed input is never emitted, not even in part. -/
+theorem C13_resync_safe (st : Resync) (parts : List Bytes) (r : WriteRes)
+    (h : writeAll st parts = some r) :
+    (∀ f ∈ r.flushed, f ≠ [] ∧ (Utf8.scan f).fin = .done) ∧
+    match r.res with
+    | .ok st' => st.buf ++ parts.flatten = r.flushed.flatten ++ st'.buf
+    | .error _ => ∃ rest, st.buf ++ parts.flatten = r.flushed.flatten ++ rest :=
+  writeAll_safe parts st r h
+
+theorem C13_resync_total (st : Resync) (content : Bytes) :
+    (writeUtf8Chunk st content).isSome = true := writeUtf8Chunk_total st content
+
+/-- The liveness half of C13_resync as a statement: any split of well-formed UTF-8 is accepted and
+reassembled, with nothing left buffered.  NOT PROVED here (it needs the structure lemma "a prefix of
+well-formed UTF-8 scans to `done`/`incomplete` with a tail of at most 3 bytes"); it is exercised by
+the lane (`resync` cases, every split incl. one byte at a time) and the examples below. -/
+def C13_resync_reassembles_statement : Prop :=
+  ∀ (s : List Char) (parts : List Bytes), parts.flatten = Utf8.encode s →
+    ∃ fl, writeAll Resync.new parts = some ⟨fl, .ok Resync.new⟩ ∧ fl.flatten = Utf8.encode s
+
+/-- `"€🐈"` one byte at a time; and E2 82 | 41 rejected with nothing emitted. -/
+example : (writeAll Resync.new [[0xE2], [0x82], [0xAC], [0xF0], [0x9F], [0x90], [0x88]]).map (·.flushed)
+    = some [[0xE2, 0x82, 0xAC], [0xF0, 0x9F, 0x90, 0x88]] := by decide +kernel
+
+example : (writeAll Resync.new [[0x61, 0xE2, 0x82], [0x41]]).map (fun r => (r.flushed, r.res.toBool))
+    = some ([[0x61]], false) := by decide +kernel
+
+/-! ## C13_meta -/
+
+open MetaCharset in
+/-- **C13_meta.** For every initial encoding, every token sequence and both values of
+`adjust_charset_on_meta_tag`, the dispatcher's observable behaviour equals the closed-form
+specification `spec`: the sink is told the initial encoding first; everything up to and including the
+first `<meta>` that declares a usable (ASCII-compatible) charset is handled in the initial encoding; if
+that charset differs, `set_encoding` is called right after that tag's token and everything later is
+handled in it; no later declaration has any effect. -/
+theorem C13_meta {α : Type} [DecidableEq α] (adjust : Bool) (e0 : α) (toks : List (Tok α)) :
+    run adjust e0 toks = spec adjust e0 toks :=
+  run_eq_spec adjust e0 toks
+
+open MetaCharset in
+/-- Consequences: at most one change after the initial notification, and the sink is always notified
+before any token is handled in a new encoding. -/
+theorem C13_meta_once {α : Type} [DecidableEq α] (adjust : Bool) (e0 : α) (toks : List (Tok α)) :
+    ((run adjust e0 toks).filter isSet).length ≤ 2 ∧ consistent e0 (run adjust e0 toks) := by
+  rw [C13_meta]
+  cases adjust with
+  | true =>
+    have := specFrom_sets e0 toks 0
+    refine ⟨?_, specFrom_consistent e0 toks 0⟩
+    simp only [spec, if_true, List.filter_cons, isSet, List.length_cons]
+    omega
+  | false =>
+    refine ⟨?_, allIn_consistent e0 toks 0⟩
+    simp [spec, List.filter_cons, isSet, allIn_noSet]
+
+open MetaCharset in
+/-- Non-vacuity: two declarations, only the first counts; the `<meta>` itself is still in the old
+encoding. -/
+example : run true 0 [Tok.text, Tok.metaTag none, Tok.metaTag (some 1), Tok.tag, Tok.metaTag (some 2), Tok.text]
+    = [Ev.setEncoding 0, Ev.token 0 0, Ev.token 1 0, Ev.token 2 0, Ev.setEncoding 1, Ev.token 3 1,
+       Ev.token 4 1, Ev.token 5 1] := by decide
 
 end LolHtml.Enc
